@@ -396,7 +396,7 @@ func c14Run(c *fw.Ctx) {
 	})
 	// sweep 1c: template values of every shape arrive whole (values containing '=', ':', '$', spaces)
 	probes := []string{`^/plain$`, `^/status\?format=json$`, `^/a=b=c$`, `^/x:y\$`}
-	owners := []string{"ops@x.test", "ops+team=core@x.test", "a=b@x.test"}
+	owners := []string{"ops@x.test", "ops+team=core@x.test", "a=b@x.test", "ci$deploy@x.test", "cost${1}centre$$@x.test"}
 	drive(c, "template-values", -1, func(x *explore.Exec, owned bool) {
 		probe := probes[x.Choose("skip-pattern-value", len(probes))]
 		owner := owners[x.Choose("address-value", len(owners))]
@@ -439,6 +439,40 @@ func c14Run(c *fw.Ctx) {
 		}
 		if len(u.AllowedEmailAddresses) != 1 || u.AllowedEmailAddresses[0] != owner {
 			viol("template-value-altered/allowed_email_addresses", fmt.Sprintf("SSO_CONFIG_OWNER=%q but the allowed addresses are %v", owner, u.AllowedEmailAddresses))
+		}
+	})
+	// sweep 1d: two entries with the same service name, only the first of which states an allow rule, and
+	// no deployment default: the second must not be loaded open to everyone
+	drive(c, "duplicate-service-name", -1, func(x *explore.Exec, owned bool) {
+		rule := []string{"allowed_groups", "allowed_email_domains", "allowed_email_addresses"}[x.Choose("first-entry-rule", 3)]
+		name2 := []string{"reports", "Reports", "reports ", "  reports"}[x.Choose("second-entry-name", 4)]
+		env := []string{"none", "domain"}[x.Choose("env-defaults", 2)]
+		if !owned {
+			return
+		}
+		doc := "- service: reports\n  default:\n    from: reports.{{cluster}}.sso.test\n    to: reports.{{root}}:8080\n    options:\n" + c14YAML(rule, "def", "      ") +
+			"- service: '" + name2 + "'\n  default:\n    from: reports-public.{{cluster}}.sso.test\n    to: reports.{{root}}:8081\n"
+		if err := os.WriteFile(file, []byte(doc), 0o644); err != nil {
+			panic(err)
+		}
+		uc := &proxy.UpstreamConfigs{ConfigsFile: file, Cluster: "prod", Scheme: "https"}
+		uc.DefaultConfig.Timeout = 10 * time.Second
+		uc.DefaultConfig.ProviderSlug = "idp"
+		if env == "domain" {
+			uc.DefaultConfig.EmailConfig.AllowedDomains = []string{"envdefault.test"}
+		}
+		err := proxy.SetUpstreamConfigs(uc, proxy.CookieConfig{Name: "_sso_proxy"}, &proxy.ServerConfig{})
+		c.Res.Outcome(fmt.Sprintf("duplicate-service-name|%s|%q|%s|err=%v", rule, name2, env, err != nil))
+		if err != nil {
+			c.Res.Count("rejected_documents", 1)
+			return
+		}
+		for _, u := range proxy.VerifUpstreamConfigs(uc) {
+			if len(u.AllowedGroups)+len(u.AllowedEmailDomains)+len(u.AllowedEmailAddresses) == 0 {
+				c.Res.Violate(fw.Violation{Property: "C14", Key: "C14/open-to-everyone/duplicate-service-name", Scenario: "duplicate-service-name", Choices: x.Choices(),
+					What:   fmt.Sprintf("upstream %s (%s) was loaded without any allow rule", u.Service, u.RouteConfig.From),
+					Detail: map[string]interface{}{"document": doc, "env_defaults": env}})
+			}
 		}
 	})
 	// sweep 2: fail-closed
